@@ -23,8 +23,10 @@ RULES = {
     'R9': 'printing a dump uses a ring of its own: the name qb_rb_create_from_file gives to qb_rb_open is not a constant (it contains the process id), so that two printers at the same time do not meet in each other\'s files and leave one behind',
     'R7': 'the reader takes what the writer can store: the largest message length the printer accepts and the text buffer it decodes into are not below the largest max_line_length a target can be given (C13.R4), and the record buffer is not of a constant size (the function name in a record has no bound) but measured on the ring just opened, and that measure is only ever raised by a constant, not capped',
     'R10': 'the writer of the records makes room with the margin the commit needs (= C11.R1): in overwrite mode the allocation loops on space_free < len + K with the K of normal mode and reclaims in the loop body',
+    'R11': 'the priority byte of a record indexes the table of priority names only below the number of its entries: in qb_log_priority2str every index into the table is a constant below the element count or a value seen to be at most that (compared with an element count, not with a size in bytes)',
+    'R12': 'every store the decoder makes while a record is printed is inside the buffer the printer handed it (= C14.R2, the bounds analysis of qb_vsnprintf_deserialize under str_len >= 1, and every caller passes a constant capacity)',
 }
-FLOORS = {'R10': 3, 'R1': 9, 'R2': 12, 'R3': 2, 'R4': 9, 'R5': 7, 'R6': 12, 'R7': 4, 'R8': 4, 'R9': 1}
+FLOORS = {'R12': 20, 'R11': 2, 'R10': 3, 'R1': 9, 'R2': 12, 'R3': 2, 'R4': 9, 'R5': 7, 'R6': 12, 'R7': 4, 'R8': 4, 'R9': 1}
 
 
 def run(ctx):
@@ -37,6 +39,10 @@ def run(ctx):
     r7(ctx)
     r8(ctx)
     r9(ctx)
+    r11(ctx)
+    # R12 = C14.R2: the printer decodes each record with qb_vsnprintf_deserialize into a buffer on its stack
+    from rules import c14
+    c14.decoder_stores(ctx, 'R12')
     # R10 = C11.R1: a dump holds an unbroken run of records only if the writer made room for each one with the margin the commit
     # needs - a chunk that overruns the read index destroys the oldest record's header and the printer finds nothing
     from rules import c11
@@ -810,3 +816,36 @@ def r9(ctx):
     ctx.check('R9', 'dump-ring-name-is-not-shared', uniq, ops[0], 'the ring for printing a dump is named after the process',
               'every print of a dump builds its ring under the same name (%s): two printers at the same time meet in each other\'s files - one header goes to the '
               'socket directory and is never unlinked, or the loser leaves its header in /dev/shm' % estr(name))
+
+
+def r11(ctx):
+    prog = ctx.prog
+    f = prog.fn('qb_log_priority2str')
+    n = 0
+    for ev in f.returns():
+        if ev.e is None:
+            continue
+        for nd in walk(ev.e):
+            if nd.get('k') != 'idx':
+                continue
+            ti = prog.type_info(unwrap(nd['b']).get('ty') or '')
+            if ti.get('kind') != 'array' or not ti.get('n'):
+                continue
+            n += 1
+            cnt = ti['n']
+            ix = unwrap(nd['i'])
+            c = cval(ix)
+            if c is not None:
+                ok, why = 0 <= c < cnt, 'constant index %d' % c
+            else:
+                nm = estr(ix)
+                ok = any(at.ls == nm and at.rc is not None and ((at.op == '<=' and at.rc < cnt) or (at.op == '<' and at.rc <= cnt)) for (at, _e) in f.guards(ev))
+                sg = prog.type_info(ix.get('ty') or '').get('signed')
+                if sg:
+                    ok = ok and any(at.ls == nm and at.rc is not None and ((at.op == '>=' and at.rc >= 0) or (at.op == '>' and at.rc >= -1)) for (at, _e) in f.guards(ev))
+                why = 'index %s' % nm
+            ctx.check('R11', 'priority2str:index-below-element-count', ok, ev, '%s is below the %d entries of the table' % (why, cnt),
+                      '%s is not bounded by the %d entries of the table of priority names: a record whose priority byte is damaged makes the printer read a name '
+                      'pointer from behind the table and hand it to printf' % (why, cnt))
+    if n < 2:
+        raise AnalysisBroken('qb_log_priority2str: %d table accesses found' % n)
